@@ -33,21 +33,41 @@ pub fn prague_at(net: &str, number: u64) -> bool {
 /// Mine empty blocks 0..base-1 (committing in chunks so that memory stays flat), as an indexer
 /// does before the first programmable block. Returns false when mining was refused.
 pub fn mine_to(d: &mut Driver, base: u64) -> bool {
-    let rec = d.record;
-    d.record = false;
-    let mut left = base.saturating_sub(d.next_height());
-    let mut ok = true;
-    while left > 0 {
-        let k = left.min(25_000);
-        if !d.exec(Op::Mine { n: k, ts: 1 }).is_ok() {
-            ok = false;
-            break;
+    d.mine_to(base)
+}
+
+/// Scale profile for a case: most cases stay small; some get blocks of 257..300 transactions (indices
+/// cross one byte), a chain initialised at height 250 or 65 530 (heights cross one / two bytes during
+/// the history; the latter only where `allow_deep`), or odd identifiers (long, quotes, non-ASCII, NUL).
+pub fn scale_world(w: &mut World, case_seed: u64, allow_base: bool, allow_deep: bool) -> &'static str {
+    let mut r = Rng::new(case_seed ^ 0x5ca1e);
+    match r.below(12) {
+        0 => {
+            w.profile.p_big_block = 10;
+            "big-blocks"
         }
-        left -= k;
-        d.exec(Op::Commit);
+        1 if allow_base => {
+            w.base = 250 + r.below(4);
+            "base-250"
+        }
+        2 if allow_base && allow_deep => {
+            w.base = 65_530 + r.below(4);
+            "base-65530"
+        }
+        3 => {
+            w.profile.p_odd_ids = 30;
+            "odd-ids"
+        }
+        4 => {
+            w.profile.p_big_block = 6;
+            w.profile.p_odd_ids = 10;
+            if allow_base {
+                w.base = 253;
+            }
+            "mixed"
+        }
+        _ => "small",
     }
-    d.record = rec;
-    ok
 }
 
 pub fn new_driver(tag: &str) -> Driver {
@@ -104,6 +124,7 @@ pub fn universe(logs: &[&[(Op, Resp)]], max_height: u64, w: Option<&World>) -> U
     }
     u.max_height = max_height;
     if let Some(w) = w {
+        u.min_height = w.base.saturating_sub(2);
         for s in &w.slots {
             u.add_slot_u64(*s);
         }
